@@ -359,6 +359,12 @@ def run(ctx):
         k_refuse(ctx, "width", w, 0)
         k_refuse(ctx, "gen_width", w, 0)
         k_refuse(ctx, "gen_bytes_width", w, 0)
+    # the empty width through the width-dispatching generator: refused, or an empty field - never a field of another width
+    for name, fn in (("from_int", lambda: U.ByteFieldGenerator.from_int(0, 0)), ("from_bytes", lambda: U.ByteFieldGenerator.from_bytes(0, bytes(8))),
+                     ("from_int_nonzero", lambda: U.ByteFieldGenerator.from_int(0, 5))):
+        ok, res = attempt(fn)
+        ctx.check("field.refusal", (isinstance(res, ValueError) and not ok) or (ok and len(res) == 0 and bytes(res.as_bytes) == b"" and name != "from_int_nonzero"),
+                  "generator_returned_a_field_of_another_width", f"w=0/{name}", {"k": "note"}, observed=repr(res))
     for n in (3, 5, 6, 7, 9):
         k_refuse(ctx, "short_from_bytes", 0, bytes(n))
     ok, res = attempt(U.UnsignedByteField.from_bytes, b"")
